@@ -308,4 +308,8 @@ def reserved_and_indexed(which: int, i: int, v: int) -> bool:
     d[key] = v
     ok = ok and d[key] == v and d.l[i]['a' if i < 2 else 'b.c'] == v
     ok = ok and ('l[%d].zz' % i) not in d
+    # a plain dict assigned through the index form becomes an addressable level too
+    d['l[%d]' % i] = {'y': {'z': v}, 'w': 4}
+    ok = ok and ('l[%d].y.z' % i) in d and d['l[%d].y.z' % i] == v and d['l[%d].w' % i] == 4
+    ok = ok and ('l[%d].y.z' % i) in list(d.keys()) and ('l[%d].y..w' % i) in d
     return ok
